@@ -190,66 +190,200 @@ theorem chunkBySlicesT_ok (pinned : Bool) (mode : Mode) (value : α) (T : Nat) (
 
 /-! ## 4. random_shift under rounding -/
 
-/-- What is used of rounding to the working precision `rnd` (IEEE round-to-nearest in a binary
-format has all three on the magnitudes in question — lengths below `2^24` resp. `2^53`, no
-overflow/underflow; the third is: a product with a representable factor `u < 1` never rounds back up
-to the other factor, because `a (1 - u) ≥ a 2^-p ≥ ulp(a) / 2`, with equality only for a power of two,
-below which the spacing halves). -/
-structure Rounding (rnd : Rat → Rat) : Prop where
-  mono : ∀ a b : Rat, a ≤ b → rnd a ≤ rnd b
-  nat_exact : ∀ k : Nat, rnd (k : Rat) = (k : Rat)
-  mul_lt : ∀ z u : Rat, 0 < rnd z → 0 ≤ u → u < 1 → rnd u = u → rnd (rnd z * u) < rnd z
+/-- What is used of rounding to the working precision `rnd`, with `B` the largest natural number up to
+which every natural is representable (`2^24` for float32, `2^53` for float64).
 
-theorem Rounding.nonneg {rnd : Rat → Rat} (h : Rounding rnd) (z : Rat) (hz : 0 ≤ z) : 0 ≤ rnd z := by
+Audit note: an earlier version asked `nat_exact` of EVERY natural number and `mul_lt` of every positive
+`rnd z`. No binary floating-point format has the first (`2^53 + 1` is not a double), IEEE formats with
+subnormals do not have the second (`3/4` of the smallest subnormal rounds back up to it), so the
+hypothesis could only be met by exact arithmetic and the theorem said nothing about the code. The
+fields below are what IEEE round-to-nearest in a binary format with `p` significant bits really has,
+for `B = 2^p`:
+* `mono`, `idem`: any rounding;
+* `nat_exact`: naturals up to `2^p` are representable;
+* `mul_lt`, asked only in the normal range `1 ≤ rnd z`: a product with a representable factor `u < 1` never
+  rounds back up to the other factor `a = rnd z`, because `a (1 - u) ≥ a 2^-p ≥ ulp(a) / 2`, with equality
+  only for `a` a power of two, below which the spacing halves. -/
+structure Rounding (B : Nat) (rnd : Rat → Rat) : Prop where
+  mono : ∀ a b : Rat, a ≤ b → rnd a ≤ rnd b
+  nat_exact : ∀ k : Nat, k ≤ B → rnd (k : Rat) = (k : Rat)
+  idem : ∀ z : Rat, rnd (rnd z) = rnd z
+  mul_lt : ∀ z u : Rat, 1 ≤ rnd z → 0 ≤ u → u < 1 → rnd u = u → rnd (rnd z * u) < rnd z
+
+theorem Rounding.nonneg {B : Nat} {rnd : Rat → Rat} (h : Rounding B rnd) (z : Rat) (hz : 0 ≤ z) :
+    0 ≤ rnd z := by
   have := h.mono 0 z hz
-  have h0 := h.nat_exact 0
+  have h0 := h.nat_exact 0 (Nat.zero_le _)
   simp at h0
   rwa [h0] at this
 
-/-- With `prop` a number of the working precision (so that it is `prop` itself that is multiplied), the
-amount never exceeds `prop * len` — and stays strictly below it unless `rnd (prop * len) = 0`. -/
-theorem shiftAmountR_le (rnd : Rat → Rat) (h : Rounding rnd) (p : Rat) (len : Nat) (u : Rat)
-    (hp : 0 ≤ p) (hu0 : 0 ≤ u) (hu1 : u < 1) (hu : rnd u = u) :
+/-- With `prop` a number of the working precision (so that it is `prop` itself that is multiplied) and
+`prop * len` within the range `B` of exactly representable naturals, the amount never exceeds
+`prop * len` — and stays strictly below it (the documented exclusive bound) unless `prop * len = 0`. -/
+theorem shiftAmountR_le (B : Nat) (rnd : Rat → Rat) (h : Rounding B rnd) (p : Rat) (len : Nat) (u : Rat)
+    (hp : 0 ≤ p) (hB : p * (len : Rat) ≤ (B : Rat)) (hu0 : 0 ≤ u) (hu1 : u < 1) (hu : rnd u = u) :
     ((shiftAmountR rnd p len u : Nat) : Rat) ≤ p * (len : Rat)
-      ∧ (0 < rnd (p * (len : Rat)) → ((shiftAmountR rnd p len u : Nat) : Rat) < p * (len : Rat)) := by
+      ∧ (0 < p * (len : Rat) → ((shiftAmountR rnd p len u : Nat) : Rat) < p * (len : Rat)) := by
   have hz : 0 ≤ p * (len : Rat) := Rat.mul_nonneg hp Rat.natCast_nonneg
   have ha : 0 ≤ rnd (p * (len : Rat)) := h.nonneg _ hz
+  have haB : rnd (p * (len : Rat)) ≤ (B : Rat) := by
+    have := h.mono _ _ hB
+    rwa [h.nat_exact B (Nat.le_refl _)] at this
   have hau : 0 ≤ rnd (rnd (p * (len : Rat)) * u) := h.nonneg _ (Rat.mul_nonneg ha hu0)
   have hcast : ((shiftAmountR rnd p len u : Nat) : Rat)
       = (((rnd (rnd (p * (len : Rat)) * u)).floor : Int) : Rat) := by
     unfold shiftAmountR
     exact natCast_toNat_floor _ hau
-  have hstrict : 0 < rnd (p * (len : Rat)) →
-      ((shiftAmountR rnd p len u : Nat) : Rat) < p * (len : Rat) := by
-    intro hpos
-    apply Std.not_le.1
-    intro hge
-    -- prop * len ≤ m (a natural number) ⇒ rnd (prop * len) ≤ m ≤ rnd (a * u) < a
-    have h1 := h.mono _ _ hge
-    rw [h.nat_exact] at h1
-    have h2 : ((shiftAmountR rnd p len u : Nat) : Rat) ≤ rnd (rnd (p * (len : Rat)) * u) := by
-      rw [hcast]; exact Rat.floor_le _
-    have h3 := h.mul_lt (p * (len : Rat)) u hpos hu0 hu1 hu
-    exact absurd (Std.le_trans h1 h2) (Std.not_le.2 h3)
-  refine ⟨?_, hstrict⟩
-  by_cases hpos : 0 < rnd (p * (len : Rat))
-  · exact Std.le_of_lt (hstrict hpos)
-  · have h0 : rnd (p * (len : Rat)) = 0 := Std.le_antisymm (Std.not_lt.1 hpos) ha
-    have : shiftAmountR rnd p len u = 0 := by
+  have hfl : ((shiftAmountR rnd p len u : Nat) : Rat) ≤ rnd (rnd (p * (len : Rat)) * u) := by
+    rw [hcast]; exact Rat.floor_le _
+  by_cases h1 : 1 ≤ rnd (p * (len : Rat))
+  · -- normal range: rnd (a * u) < a; a natural m with prop * len ≤ m would give a ≤ m ≤ rnd (a * u) < a
+    have h3 := h.mul_lt (p * (len : Rat)) u h1 hu0 hu1 hu
+    have hstrict : ((shiftAmountR rnd p len u : Nat) : Rat) < p * (len : Rat) := by
+      apply Rat.not_le.1
+      intro hge
+      have hmB : ((shiftAmountR rnd p len u : Nat) : Rat) ≤ ((B : Nat) : Rat) :=
+        Rat.le_trans hfl (Rat.le_trans (Rat.le_of_lt h3) haB)
+      have hmB' : shiftAmountR rnd p len u ≤ B := Rat.natCast_le_natCast.1 hmB
+      have h4 := h.mono _ _ hge
+      rw [h.nat_exact _ hmB'] at h4
+      exact absurd (Rat.le_trans h4 hfl) (Rat.not_le.2 h3)
+    exact ⟨Rat.le_of_lt hstrict, fun _ => hstrict⟩
+  · -- a < 1: a * u ≤ a, so rnd (a * u) ≤ rnd a = a < 1 and nothing is added
+    have hlt1 : rnd (p * (len : Rat)) < 1 := Rat.not_le.1 h1
+    have hle : rnd (p * (len : Rat)) * u ≤ rnd (p * (len : Rat)) := by
+      have := Rat.mul_le_mul_of_nonneg_left (Rat.le_of_lt hu1) ha
+      simpa using this
+    have hw : rnd (rnd (p * (len : Rat)) * u) < ((1 : Int) : Rat) := by
+      have := h.mono _ _ hle
+      rw [h.idem] at this
+      exact Std.lt_of_le_of_lt this (by simpa using hlt1)
+    have hf : (rnd (rnd (p * (len : Rat)) * u)).floor < 1 := Rat.floor_lt_iff.2 hw
+    have hzero : shiftAmountR rnd p len u = 0 := by
       unfold shiftAmountR
-      have hn := h.nat_exact 0
-      simp at hn
-      simp only [h0, Rat.zero_mul, hn]
-      decide
-    rw [this]
-    simpa using hz
+      omega
+    rw [hzero]
+    exact ⟨by simpa using hz, fun hpos => by simpa using hpos⟩
 
-/-- exact arithmetic is a rounding -/
-theorem rounding_id : Rounding (fun q => q) where
+/-- exact arithmetic is a rounding, with any bound -/
+theorem rounding_id (B : Nat) : Rounding B (fun q => q) where
   mono := fun _ _ h => h
-  nat_exact := fun _ => rfl
+  nat_exact := fun _ _ => rfl
+  idem := fun _ => rfl
   mul_lt := fun z u hz _ hu1 _ => by
-    have := Rat.mul_lt_mul_of_pos_left hu1 hz
+    have hz' : (0 : Rat) < z := Std.lt_of_lt_of_le (by decide) hz
+    have := Rat.mul_lt_mul_of_pos_left hu1 hz'
     simpa using this
+
+/-! ## 5. facts about the per-sequence spec used by the property statements -/
+
+/-- "pad, then slice" has exactly the requested length, in every mode and for every slice shape
+(empty and inverted slices: 0). -/
+theorem chunkSeq_length (mode : Mode) (value : α) (xs : List α) (start stop : Int) :
+    (chunkSeq mode value xs start stop).length = chunkLen start stop := by
+  unfold chunkSeq chunkLen
+  by_cases he : stop ≤ start
+  · rw [if_pos he]
+    simp
+    omega
+  · rw [if_neg he]
+    simp only [slice, List.length_drop, List.length_take, padSeq_eq, List.length_append, leftPart_length,
+      rightPart_length, needLeft, needRight, if_neg he]
+    omega
+
+/-- the rows `chunkBySlicesT` hands to `chunkBySlices` -/
+theorem zipChunkRows_length (x : List (List α)) (lens : List Nat) (slices : List (Int × Int))
+    (hl : lens.length = x.length) (hs : slices.length = x.length) :
+    (List.zipWith (fun (xl : List α × Nat) (s : Int × Int) => (⟨xl.1, xl.2, s.1, s.2⟩ : ChunkRow α))
+      (x.zip lens) slices).length = x.length := by
+  simp [hl, hs]
+
+theorem zipChunkRows_getElem (x : List (List α)) (lens : List Nat) (slices : List (Int × Int)) (n : Nat)
+    (hn : n < (List.zipWith (fun (xl : List α × Nat) (s : Int × Int) => (⟨xl.1, xl.2, s.1, s.2⟩ : ChunkRow α))
+      (x.zip lens) slices).length)
+    (hx : n < x.length) (hl : n < lens.length) (hs : n < slices.length) :
+    (List.zipWith (fun (xl : List α × Nat) (s : Int × Int) => (⟨xl.1, xl.2, s.1, s.2⟩ : ChunkRow α))
+      (x.zip lens) slices)[n] = ⟨x[n], lens[n], (slices[n]).1, (slices[n]).2⟩ := by
+  simp
+
+/-! ## 6. broadcasting, stated on indices -/
+
+/-- torch's broadcasting rule for a 2-D mask of shape `(m0, m1)` against `(N, T)`, stated declaratively:
+cell `(n, t)` of the broadcast mask is cell `(n or 0, t or 0)` of the given one, `0` along a dimension
+of size 1. -/
+def bcastMask (N T m0 m1 : Nat) (mask : List (List Bool)) : List (List Bool) :=
+  (List.range N).map (fun n => (List.range T).map (fun t =>
+    (mask.getD (if m0 = 1 then 0 else n) []).getD (if m1 = 1 then 0 else t) false))
+
+theorem bcastMask_row_length (N T m0 m1 : Nat) (mask : List (List Bool)) :
+    ∀ r ∈ bcastMask N T m0 m1 mask, r.length = T := by
+  intro r hr
+  simp only [bcastMask, List.mem_map] at hr
+  obtain ⟨n, _, rfl⟩ := hr
+  simp
+
+/-- the model's `expand2` IS that rule on a mask whose nested list has the shape it is declared with -/
+theorem expand2_eq_bcastMask (N T m0 m1 : Nat) (mask : List (List Bool))
+    (hm0 : mask.length = m0) (hm : ∀ r ∈ mask, r.length = m1)
+    (hb0 : m0 = N ∨ m0 = 1) (hb1 : m1 = T ∨ m1 = 1) :
+    expand2 N T m0 m1 mask = .ok (bcastMask N T m0 m1 mask) := by
+  unfold expand2
+  rw [if_pos ⟨hb0, hb1⟩]
+  dsimp only
+  -- the rows before the inner expansion
+  have hrows : (if m0 = N then mask else List.replicate N (mask.headD []))
+      = (List.range N).map (fun n => mask.getD (if m0 = 1 then 0 else n) []) := by
+    by_cases h0 : m0 = N
+    · rw [if_pos h0]
+      apply List.ext_getElem
+      · simp [hm0, h0]
+      · intro n h1 h2
+        have hn : n < N := by simpa using h2
+        by_cases h1' : m0 = 1
+        · have : n = 0 := by omega
+          subst this
+          simp [h1', List.getD_eq_getElem?_getD, List.getElem?_eq_getElem h1]
+        · simp [h1', List.getD_eq_getElem?_getD, List.getElem?_eq_getElem h1]
+    · rw [if_neg h0]
+      have h1' : m0 = 1 := by omega
+      apply List.ext_getElem
+      · simp
+      · intro n h1 h2
+        cases mask with
+        | nil => simp at hm0; omega
+        | cons r rs => simp [h1']
+  rw [hrows, bcastMask, List.map_map]
+  congr 1
+  apply List.map_congr_left
+  intro n hn
+  simp only [Function.comp]
+  -- one row
+  have hrow : (mask.getD (if m0 = 1 then 0 else n) []).length = m1 := by
+    have hn' : n < N := by simpa using hn
+    have hidx : (if m0 = 1 then 0 else n) < mask.length := by
+      rw [hm0]
+      split <;> omega
+    rw [List.getD_eq_getElem?_getD, List.getElem?_eq_getElem hidx]
+    exact hm _ (List.getElem_mem hidx)
+  generalize mask.getD (if m0 = 1 then 0 else n) [] = row at hrow
+  by_cases h1 : m1 = T
+  · rw [if_pos h1]
+    apply List.ext_getElem
+    · simp [hrow, h1]
+    · intro t ht1 ht2
+      by_cases h1' : m1 = 1
+      · have : t = 0 := by omega
+        subst this
+        simp [h1', List.getD_eq_getElem?_getD, List.getElem?_eq_getElem ht1]
+      · simp [h1', List.getD_eq_getElem?_getD, List.getElem?_eq_getElem ht1]
+  · rw [if_neg h1]
+    have h1' : m1 = 1 := by omega
+    cases row with
+    | nil => simp at hrow; omega
+    | cons v vs =>
+      apply List.ext_getElem
+      · simp
+      · intro t ht1 ht2
+        simp [h1']
 
 end PdtVerif.PadChunk
